@@ -1027,6 +1027,72 @@ Proof.
     + intros r Hr Ha. exact (D r Ha Hr).
     + apply obs_of_observe. exact OB.
 Qed.
+
+(* Stream.copy_like(MultiStream holding one phase): the same, through the view of that phase (incl. T and P) *)
+Lemma copy_like_s_m1 h a b ka pba da kb p db rb h' a' e :
+  hwf h -> swf h a -> swf h b -> disjoint (footprint h a) (footprint h b) ->
+  nth_error h (imol a) = Some (CIdxC ka pba da) -> nth_error h (imol b) = Some (CIdxM kb [p] db) ->
+  rdrows h db = [rb] -> valid_phase p = true ->
+  (ka <> kb -> missing (chems pk ka) (chems pk kb) (rdvec h rb) = false) ->
+  copy_like pk h a b = (h', a', e) ->
+  e = None /\ a' = a /\ rdphase h' pba = p /\ rdtc h' (tc a) = rdtc h (tc b) /\
+  (forall c, (flow_of (chems pk ka) (rdvec h' da) c == flow_of (chems pk kb) (rdvec h rb) c)%Q) /\
+  obs h' b = obs h b.
+Proof.
+  intros W SA SB D Hi Hb RB VP MS CL.
+  destruct (footprint_chem _ _ _ _ _ W Hi) as [Kpa Kda]. destruct (footprint_multi _ _ _ _ _ W Hb) as [Kdb Krb].
+  destruct (swf_cases _ _ SA) as [_ (Ta & Pa & Hta)]. destruct (swf_cases _ _ SB) as [_ (Tb & Pb & Htb)].
+  assert (FPA : footprint h a = [imol a; da; pba; tc a]) by (unfold footprint; rewrite Hi; reflexivity).
+  assert (FPB : footprint h b = [imol b; db; rb; tc b]) by (unfold footprint; rewrite Hb, RB; reflexivity).
+  assert (NE : imol a <> imol b).
+  { intros E. apply (D (imol a)); [apply imol_in_fp|rewrite E; apply imol_in_fp]. }
+  assert (Ndd : da <> rb). { intros E. apply (D da); [rewrite FPA|rewrite FPB, E]; simpl; auto. }
+  assert (Kta : is_kind h (tc a) 3) by apply SA.
+  assert (Ndp : da <> pba). { intros E. rewrite E in Kda. pose proof (is_kind_fun _ _ _ _ Kda Kpa). lia. }
+  assert (Ndt : da <> tc a). { intros E. rewrite E in Kda. pose proof (is_kind_fun _ _ _ _ Kda Kta). lia. }
+  assert (Npt : pba <> tc a). { intros E. rewrite E in Kpa. pose proof (is_kind_fun _ _ _ _ Kpa Kta). lia. }
+  assert (Lda : da < length h) by (eapply is_kind_lt; eauto).
+  assert (Lpa : pba < length h) by (eapply is_kind_lt; eauto).
+  assert (Lta : tc a < length h) by (eapply is_kind_lt; eauto).
+  (* the three writes *)
+  assert (SHAPE : exists v, (forall c, (flow_of (chems pk ka) v c == flow_of (chems pk kb) (rdvec h rb) c)%Q) /\
+                  h' = wr (wr (wr h da (CVec v)) pba (CPhase p)) (tc a) (CTC Tb Pb) /\ a' = a /\ e = None).
+  { unfold copy_like in CL. rewrite Hi, Hb in CL. rewrite RB in CL. cbn [nth] in CL.
+    unfold chem_copy_like in CL. rewrite Hi in CL.
+    cbn [c_self c_pkg c_data c_phase opt_eqb] in CL. rewrite VP in CL.
+    assert (Q2 : Nat.eqb da rb = false) by (apply Nat.eqb_neq; auto). rewrite Q2 in CL.
+    assert (TCL : forall hh, tc_copy_like hh (tc a) (tc b) = wr hh (tc a) (CTC (fst (rdtc hh (tc b))) (snd (rdtc hh (tc b))))).
+    { intros hh. unfold tc_copy_like. destruct (rdtc hh (tc b)); reflexivity. }
+    assert (RTB : forall x c1 y c2, x <> tc b -> y <> tc b -> rdtc (wr (wr h x c1) y c2) (tc b) = (Tb, Pb)).
+    { intros x c1 y c2 N1 N2. unfold rdtc. rewrite !wr_other by auto. rewrite Htb. reflexivity. }
+    assert (Ntb1 : da <> tc b). { intros E. apply (D da); [rewrite FPA|rewrite FPB, E]; simpl; auto. }
+    assert (Ntb2 : pba <> tc b). { intros E. apply (D pba); [rewrite FPA|rewrite FPB, E]; simpl; auto. }
+    destruct (Nat.eqb ka kb) eqn:KK.
+    - apply Nat.eqb_eq in KK. subst kb. inversion CL; subst h' a' e; clear CL.
+      exists (rdvec h rb). split; [intros c; reflexivity|]. rewrite TCL, RTB by auto. auto.
+    - apply Nat.eqb_neq in KK. specialize (MS KK).
+      assert (RV : rdvec (wr h da (CVec (zero_like (rdvec h da)))) rb = rdvec h rb).
+      { unfold rdvec. rewrite wr_other; auto. }
+      rewrite RV in CL. rewrite MS in CL. inversion CL; subst h' a' e; clear CL.
+      exists (remap (chems pk ka) (chems pk kb) (rdvec h rb)). split; [intros c; apply flow_of_remap; auto|].
+      rewrite TCL.
+      assert (WW : wr (wr h da (CVec (zero_like (rdvec h da)))) da (CVec (remap (chems pk ka) (chems pk kb) (rdvec h rb)))
+                   = wr h da (CVec (remap (chems pk ka) (chems pk kb) (rdvec h rb)))).
+      { unfold wr. apply upd_upd. }
+      rewrite WW. rewrite RTB by auto. auto. }
+  destruct SHAPE as (v & FL & -> & -> & ->).
+  split; auto. split; auto.
+  assert (L1 : length (wr h da (CVec v)) = length h) by apply wr_length.
+  split; [|split; [|split]].
+  - unfold rdphase. rewrite wr_other by auto. rewrite wr_same by (rewrite L1; auto). reflexivity.
+  - unfold rdtc at 1. rewrite wr_same by (rewrite !wr_length; auto). unfold rdtc. rewrite Htb. reflexivity.
+  - intros c. unfold rdvec at 1. rewrite wr_other by auto. rewrite wr_other by auto. rewrite wr_same by auto. apply FL.
+  - assert (FR : frame h (wr (wr (wr h da (CVec v)) pba (CPhase p)) (tc a) (CTC Tb Pb)) (footprint h a)).
+    { intros r Lr Nr. rewrite FPA in Nr. rewrite !wr_other; auto; intros E; apply Nr; subst; simpl; auto. }
+    destruct (stream_stable h _ (footprint h a) b [] W SB FR) as [_ OB].
+    + intros r Hr Ha. exact (D r Ha Hr).
+    + apply obs_of_observe. exact OB.
+Qed.
 End CopyLike.
 
 (* ================================================================= reduce: the plain fields *)
